@@ -437,6 +437,34 @@ def inject_loop(entry, gloop, kind):
             raise gen.Ungeneratable('instances')
         st, pos = set_pos(d, idx[m])
         return d, {'level': 'seg', 'code': '4', 'seg_id': first.id, 'pos': pos}, False
+    if kind == 'missing-required-loop':
+        first = gloop.children[0]
+        root = G.load(entry[4])
+        d = gen.build(entry, {'include': {'#%d' % G.segments(root).index(first)}, 'sets': 2})
+        if gen.selfcheck(d):
+            raise gen.Ungeneratable('ambiguous carrier')
+        d.base_text = d.text(eol='\n')
+        inst = None
+        idx = []
+        for k, lp in enumerate(d.lpaths):
+            if set_pos(d, k)[0] != 0:
+                continue
+            hit = [x for x in lp if x[0] == gloop.path]
+            if hit:
+                if inst is None:
+                    inst = hit[0]
+                if hit[0] == inst:
+                    idx.append(k)
+        if not idx or idx != list(range(idx[0], idx[-1] + 1)):
+            raise gen.Ungeneratable('loop instance not contiguous')
+        del d.segs[idx[0]:idx[-1] + 1]; del d.nodes[idx[0]:idx[-1] + 1]; del d.lpaths[idx[0]:idx[-1] + 1]
+        fix_counts(d)
+        j = idx[0]
+        st, pos = set_pos(d, j)
+        exp = {'level': 'seg', 'code': '3', 'seg_id': first.id, 'pos': pos}
+        if j < len(d.segs) and d.segs[j][0] == 'SE':
+            exp['pos'] = pos - 1
+        return d, exp, True
     raise ValueError(kind)
 
 
@@ -552,6 +580,13 @@ def _cases_raw(root, thorough, seen):
         if n.kind == 'loop' and not gen.transparent(n) and n.usage != 'N' and n.path.startswith('/ISA_LOOP/GS_LOOP/ST_LOOP/') \
                 and G.maxrep(n) <= 10 and not any(a.usage == 'N' for a in ancestors(n) if a.kind == 'loop'):
             yield {'what': 'loop', 'path': n.path, 'kind': 'beyond-repeat'}
+    for n in G.walk(root):
+        # a whole required loop left out (every segment of one instance removed); loops opened by an HL carry the
+        # hierarchy numbering and are left to C04
+        if n.kind == 'loop' and not gen.transparent(n) and n.usage == 'R' and n.path.startswith('/ISA_LOOP/GS_LOOP/ST_LOOP/') \
+                and n.id not in ('ST_LOOP',) and n.children and n.children[0].kind == 'seg' and n.children[0].id != 'HL' \
+                and not any(a.usage == 'N' for a in ancestors(n) if a.kind == 'loop'):
+            yield {'what': 'loop', 'path': n.path, 'kind': 'missing-required-loop'}
 
 
 def ancestors(n):
@@ -603,7 +638,7 @@ def run(R):
     R.bounds = {'maps': len(ents), 'injections': total,
                 'catalogue': ['too-long', 'too-short', 'wrong-class', 'impossible-date (month)', 'impossible-date-day', 'impossible-time (hour)', 'impossible-time-minute', 'impossible-time-second', 'outside-code-list', 'missing-required',
                               'not-used-filled', 'too-many-elements', 'syntax:<note>', 'unknown-id', 'missing-required-segment', 'beyond-max-use',
-                              'not-used-segment', 'beyond-repeat (loops)'],
+                              'not-used-segment', 'beyond-repeat (loops)', 'missing-required-loop'],
                 'targets': 'every node x every applicable kind' if R.thorough else 'one node per definition signature per map x every applicable kind'}
     R.assumptions = ['carrier = the d<=1 conformant document containing the target, in a two-set interchange whose other set is minimal',
                      'faults on qualifier elements and on members of syntax notes are structural: only "verdict false, an error at that segment position" is demanded',
